@@ -2,6 +2,7 @@ package main
 
 import (
 	"go/ast"
+	"go/types"
 )
 
 func init() {
@@ -16,29 +17,54 @@ func init() {
 		}
 		info := pk.TypesInfo
 		n := 0
+		// the string form = the variable returned as result 0 (identified by object, not by its name)
+		var strObj types.Object
+		ast.Inspect(fd.Body, func(nd ast.Node) bool {
+			if _, ok := nd.(*ast.FuncLit); ok {
+				return false
+			}
+			if rs, ok := nd.(*ast.ReturnStmt); ok && len(rs.Results) == 3 {
+				if id, ok := unparen(rs.Results[0]).(*ast.Ident); ok {
+					strObj = info.ObjectOf(id)
+				}
+			}
+			return true
+		})
+		if strObj == nil {
+			c.Undecided("R08g", "convertDataType:string-result", fd.Pos(), "convertDataType does not return a local variable as its string result")
+			return
+		}
+		isTextual := func(t types.Type) bool {
+			if t == nil {
+				return false
+			}
+			switch u := t.Underlying().(type) {
+			case *types.Basic:
+				return u.Kind() == types.String
+			case *types.Slice:
+				if b, ok := u.Elem().Underlying().(*types.Basic); ok {
+					return b.Kind() == types.Byte || b.Kind() == types.Rune || b.Kind() == types.Uint8 || b.Kind() == types.Int32
+				}
+			}
+			return false
+		}
 		ast.Inspect(fd.Body, func(nd ast.Node) bool {
 			ts, ok := nd.(*ast.TypeSwitchStmt)
 			if !ok {
 				return true
 			}
-			var bound string
-			if as, ok := ts.Assign.(*ast.AssignStmt); ok && len(as.Lhs) == 1 {
-				if id, ok := as.Lhs[0].(*ast.Ident); ok {
-					bound = id.Name
-				}
-			}
 			for _, s := range ts.Body.List {
 				cc := s.(*ast.CaseClause)
 				textual := false
 				for _, te := range cc.List {
-					switch c.src(te) {
-					case "string", "[]byte", "[]rune":
+					if tv, ok := info.Types[te]; ok && tv.IsType() && isTextual(tv.Type) {
 						textual = true
 					}
 				}
 				if !textual {
 					continue
 				}
+				bound := info.Implicits[cc] // the switch variable as bound in this arm
 				k := 0
 				ast.Inspect(cc, func(x ast.Node) bool {
 					as, ok := x.(*ast.AssignStmt)
@@ -46,7 +72,7 @@ func init() {
 						return true
 					}
 					id, ok := as.Lhs[0].(*ast.Ident)
-					if !ok || id.Name != "convStr" {
+					if !ok || info.ObjectOf(id) != strObj {
 						return true
 					}
 					n++
@@ -57,7 +83,7 @@ func init() {
 					if k > 1 {
 						key += "#" + itoa(k)
 					}
-					c.Check(isId && vid.Name == bound, "R08g", key, as.Pos(), "the stored string form is the value itself (got %s)", c.src(as.Rhs[0]))
+					c.Check(isId && bound != nil && info.ObjectOf(vid) == bound, "R08g", key, as.Pos(), "the stored string form is the value itself (got %s)", c.src(as.Rhs[0]))
 					return true
 				})
 			}
